@@ -143,6 +143,8 @@ class Operand:
 
 def parse_operand(s):
     s = s.strip()
+    if s.startswith("no_retag "):
+        s = s[len("no_retag "):].strip()
     if s.startswith("copy "):
         return Operand("copy", parse_place(s[5:]))
     if s.startswith("move "):
@@ -172,6 +174,8 @@ class Rvalue:
 
 def parse_rvalue(s):
     s = s.strip()
+    if s.startswith("no_retag "):
+        s = s[len("no_retag "):].strip()
     m = re.match(r"([A-Za-z]+)\((.*)\)$", s, re.S)
     if m and m.group(1) in BINOPS:
         a = split_top(m.group(2))
